@@ -47,6 +47,35 @@ Theorem C12_int_desc_order : forall v w, int64_ok v -> int64_ok w ->
 Proof. exact encode_int_desc_cmp. Qed.
 Print Assumptions C12_int_desc_order.
 
+(* ---------- (a) descending variants: round trip and REVERSED order ---------- *)
+
+Theorem C12_bytes_desc_roundtrip : forall d r, bytes_ok d = true -> decode_bytes true (encode_bytes_desc d ++ r) = Ok (r, d).
+Proof. exact decode_encode_bytes_desc. Qed.
+Print Assumptions C12_bytes_desc_roundtrip.
+
+Theorem C12_bytes_desc_order : forall a b, bytes_ok a = true -> bytes_ok b = true ->
+  bytes_cmp (encode_bytes_desc a) (encode_bytes_desc b) = bytes_cmp b a.
+Proof. exact encode_bytes_desc_cmp. Qed.
+Print Assumptions C12_bytes_desc_order.
+
+Theorem C12_uint_desc_roundtrip : forall u r, u < two64 -> decode_uint_desc (encode_uint_desc u ++ r) = Ok (r, u).
+Proof. exact decode_encode_uint_desc. Qed.
+Print Assumptions C12_uint_desc_roundtrip.
+
+Theorem C12_uint_desc_order : forall u w, u < two64 -> w < two64 ->
+  bytes_cmp (encode_uint_desc u) (encode_uint_desc w) = (w ?= u).
+Proof. exact encode_uint_desc_cmp. Qed.
+Print Assumptions C12_uint_desc_order.
+
+Theorem C12_float_desc_roundtrip : forall u r, float_ok u -> decode_float_desc (encode_float_desc u ++ r) = Ok (r, float_norm u).
+Proof. exact decode_encode_float_desc. Qed.
+Print Assumptions C12_float_desc_roundtrip.
+
+Theorem C12_float_desc_order : forall a b, float_ok a -> float_ok b ->
+  bytes_cmp (encode_float_desc a) (encode_float_desc b) = (float_key b ?= float_key a)%Z.
+Proof. exact encode_float_desc_cmp. Qed.
+Print Assumptions C12_float_desc_order.
+
 (* ---------- (a) float64 by bit pattern ---------- *)
 
 (* exact round trip except that -0 comes back as +0 (the same float value) *)
